@@ -128,15 +128,17 @@ class ScriptedContext:
             return Sizes(self.provisional_sig_size)
         return Sizes(self.sig_size)
 
-    def _sig(self, direction: str, seq: int, bufs) -> bytes:
+    def _sig(self, direction: str, seq: int, bufs, size: t.Optional[int] = None) -> bytes:
         import spnego.iov as siov
+
+        size = self.sig_size if size is None else size
 
         h = hashlib.sha256(self.key + direction.encode() + seq.to_bytes(4, "big"))
         for ty, data in bufs:
             if ty in (siov.BufferType.sign_only, siov.BufferType.data):
                 h.update(b"|" + (data or b""))
         d = h.digest()
-        return (d * (self.sig_size // len(d) + 1))[: self.sig_size]
+        return (d * (size // len(d) + 1))[:size]
 
     def wrap_iov(self, iov: t.Sequence[t.Any], encrypt: bool = True, qop: t.Optional[int] = None) -> IovResult:
         import spnego.iov as siov
@@ -184,7 +186,8 @@ class ScriptedContext:
             else:
                 plain.append((ty, d))
         direction = "s2c" if self.role == "client" else "c2s"
-        exp = self._sig(direction, self.seq_in, plain)
+        psz = getattr(self, "peer_sig_size", None)  # the peer's per-message tokens may be shorter than the maximum this side announces
+        exp = self._sig(direction, self.seq_in, plain, psz)
         if sig != exp:
             # like a GSS mechanism, the context only insists on fresh, in-order per-message tokens if the initiator ASKED for replay and
             # sequence detection when it created the context (spnego.client(context_req=...)); otherwise an earlier token is accepted again
@@ -194,7 +197,7 @@ class ScriptedContext:
                 from spnego import ContextReq
 
                 enforce = bool(int(req) & int(ContextReq.replay_detect | ContextReq.sequence_detect))
-            if enforce or not any(sig == self._sig(direction, q, plain) for q in range(self.seq_in)):
+            if enforce or not any(sig == self._sig(direction, q, plain, psz) for q in range(self.seq_in)):
                 raise BadMICError(context_msg="scripted context: signature mismatch")
             self.replays_accepted = getattr(self, "replays_accepted", 0) + 1
             return IovResult(tuple(ResBuf(ty, d) for ty, d in plain), True)
